@@ -7,6 +7,8 @@ import (
 	"fmt"
 	"math/big"
 	"strings"
+
+	vmcommon "github.com/ElrondNetwork/elrond-vm-common"
 )
 
 type worldSnap struct {
@@ -72,6 +74,8 @@ func (c *ctx) walk(u *universe, o walkOpts) {
 		if u.rich {
 			tour = richTour(u, w)
 		}
+		var prevOut *vmcommon.VMOutput
+		var prevOutSnap, prevFn, prevCall string
 		var pending []*worldOp // deliveries of the messages emitted by tour steps
 		ti := 0
 		total := o.Ops + len(cover)
@@ -99,6 +103,19 @@ func (c *ctx) walk(u *universe, o walkOpts) {
 				for _, m := range sr.NewMsgs {
 					pending = append(pending, &worldOp{Kind: opDeliver, ID: m.ID, Gas: m.GasLimit})
 				}
+			}
+			// what an earlier call returned must not change when later calls run (an output that aliases a pooled or reused buffer does):
+			// the previous output is serialised again after this step and compared with what it was when it was returned
+			if prevOut != nil {
+				if now := coqOutput(prevOut); now != prevOutSnap {
+					c.fail("monitor", "output-changed-by-a-later-call/"+prevFn,
+						fmt.Sprintf("the output returned by %s changed after the next call (%s) ran: it was %.300s and now reads %.300s", prevFn, op.String(), prevOutSnap, now),
+						map[string]interface{}{"earlier_call": prevCall, "later_op": op.String(), "history": histReplay(hist)})
+				}
+				prevOut = nil
+			}
+			if !sr.Skipped && sr.Res != nil && sr.Res.Status == 0 && sr.Res.Out != nil {
+				prevOut, prevOutSnap, prevFn, prevCall = sr.Res.Out, coqOutput(sr.Res.Out), sr.Call.Fn, describeCall(sr.Call)
 			}
 			hist = append(hist, op.String())
 			if hrec != nil {
